@@ -60,7 +60,7 @@ CHECKS["C20"] = {
 
 
 _L2NOTE = 'Trusted: Coq kernel; extraction; harness (crashfs = in-memory VFS/MetaStore with durable/pending bookkeeping); bbolt as an atomic durable cell; torn-write granularity of 8 bytes. The L2 model works on abstract segment files; the byte-level recovery law is the L1 theorem (Seg/RecoverFacts.v).'
-_INTERIM = " NOTE: while the master theorem's proof is in progress the Props file holds proved fragments named *_partial; the statement is evaluated on random histories of the model every run (a test) and the model is tied to the implementation by the streams."
+_INTERIM = " PROVED in full (Wal/Crash*.v, Wal/Seq*.v; every crash point of every call and of recovery is covered by proof); the statement is additionally evaluated on random histories of the model every run and the model is tied to the implementation by the streams."
 for _p, _t in {
   "C01": "Master statement crash_refinement_stmt (Wal/Hist.v): for all histories of calls, power losses at any I/O boundary with any adversary choice over non-durable files and pending batches, nested crashes inside recovery and reopen cycles, Open succeeds and the recovered log equals the acknowledged state or the state of the interrupted call. Model tied to the code by the crash stream (crash images built from the implementation's own I/O trace, recovered by the real Open) with an acknowledged-entries oracle.",
   "C02": "Same master statement: the recovered state is EXACTLY the acknowledged or the in-flight state (nothing fabricated, batch whole or absent), over chains of crashes; byte-level law seg_recover_committed (L1) for torn writes and stale bytes.",
@@ -73,7 +73,7 @@ CHECKS["C05"] = {"text": "Statement seq_refinement_stmt (Wal/Hist.v): for every 
                  "note": _L2NOTE, "technique": "Rocq proof (refinement to an abstract contiguous log) + model/implementation correspondence", "ref": "DESIGN.md 5 C05"}
 CHECKS["C08"] = {"text": "Stable store: Get returns the latest successful Set across interleavings with log operations and reopens (seq_refinement_stmt, dk_stable = spec map) and across crashes (crash_refinement_stmt); isolation lemmas; uint64 round trip. Tied by seqapi (incl. real BoltDB) and crash streams." + _INTERIM,
                  "note": _L2NOTE + " bbolt's transaction atomicity/durability is trusted (partial).", "technique": "Rocq proof (refinement incl. key/value map) + model/implementation correspondence", "ref": "DESIGN.md 5 C08"}
-CHECKS["C10"] = {"text": "Statement fault_safety_stmt (Wal/FaultHist.v): for every history with an I/O error injected at any action of any call, readers of the running process see exactly the acknowledged state and a reopen presents a state in which each failed call is applied in full or not at all. Proved so far: rollback of failed appends/force-seals, failed commits publish nothing, writes refused after a failed post-commit creation. Model tied to the code by the faults stream; acknowledged-entries oracle." + _INTERIM,
+CHECKS["C10"] = {"text": "Statement fault_safety_stmt (Wal/FaultHist.v): for every history with an I/O error injected at any action of any call, readers of the running process see exactly the acknowledged state and a reopen presents a state in which each failed call is applied in full or not at all. Proved so far: rollback of failed appends/force-seals, failed commits publish nothing, writes refused after a failed post-commit creation. Model tied to the code by the faults stream; acknowledged-entries oracle. NOTE: the full statement is NOT proved yet (only the *_partial lemmas are); it is evaluated on random histories of the model every run (a test).",
                  "note": _L2NOTE + " Faults are single transient failures without partial effect; deletions exempt.", "technique": "Rocq proof (partial: local rollback lemmas; full statement tested) + model/implementation correspondence under fault injection", "ref": "DESIGN.md 5 C10"}
 
 CHECKS["C11"] = {
